@@ -1,6 +1,7 @@
 package main
 
 import (
+	"go/token"
 	"runtime"
 	"fmt"
 	"github.com/nspcc-dev/neo-go/pkg/crypto/hash"
@@ -73,6 +74,11 @@ func (e *Engine) call(fn *ssa.Function, s *St, in *ssa.Call, ip int) (next []suc
 			case BytesV:
 				return set(IntV{I(int64(len(x.b)))})
 			case NullV:
+				// neo-go compiles `for range x` to a bare SIZE (faults on Null) but the len builtin to a nil-safe
+				// sequence; go/ssa emits the range's len call without a source position
+				if in.Pos() == token.NoPos && !inHarnessFile(fn) && e.model == nil && !e.nativeMode {
+					return nil, []Out{{s.State, true, constBytes("invalid conversion: Null/ByteString (range over nil)")}}, false
+				}
 				return set(IntV{I(0)})
 			case ListV:
 				return set(IntV{I(int64(len(s.heap[x.id].(ArrObj).e)))})
@@ -91,7 +97,10 @@ func (e *Engine) call(fn *ssa.Function, s *St, in *ssa.Call, ip int) (next []suc
 				}
 				return set(args[1])
 			case ListV: // NeoVM APPEND mutates in place
-				y := args[1].(ListV)
+				y, ok := args[1].(ListV)
+				if !ok { // appending a nil slice
+					return set(x)
+				}
 				arr := s.heap[x.id].(ArrObj)
 				s.heap[x.id] = ArrObj{append(append([]Value(nil), arr.e...), s.heap[y.id].(ArrObj).e...)}
 				return set(x)
@@ -624,7 +633,7 @@ func (e *Engine) call(fn *ssa.Function, s *St, in *ssa.Call, ip int) (next []suc
 			return nil, []Out{{s.State, true, constBytes("invalid multisig parameters")}}, false
 		}
 		return set(e.uf("multisig", in0, 20, nil))
-	case "(" + ipfx[:len(ipfx)-1] + ".Hash160).Equals":
+	case "(" + ipfx[:len(ipfx)-1] + ".Hash160).Equals", "(" + ipfx[:len(ipfx)-1] + ".Hash256).Equals", "(" + ipfx[:len(ipfx)-1] + ".PublicKey).Equals", "(" + ipfx[:len(ipfx)-1] + ".Signature).Equals":
 		a, aok := args[0].(BytesV)
 		b, bok := args[1].(BytesV)
 		if !aok || !bok {
